@@ -18,63 +18,138 @@ from extract import AnalysisBroken
 def run_b(prog, res):
     stat = res.stat("C09.b", "constant folding replaces the application only on the non-exception edge of the fold result; "
                     "the fold goes through sexp_apply_no_err_handler", floor=2)
-    fn = prog.func("simplify")
-    if fn is None:
+    if prog.func("simplify") is None:
         raise AnalysisBroken("anchor vanished: simplify (is SEXP_USE_SIMPLIFY off in this configuration?)")
+    unit = prog.func("simplify").unit
+    funcs = [f for f in unit.func_list if f.blocks and f.file.endswith("simplify.c")]
     model = KindModel(prog)
     exc = None
     for r in model.rows:
         if r["_member"] == "exception":
             exc = "t%d" % r["tag"]
-    # locals assigned from the fold call
-    fold_vars = set()
-    direct_apply = []
-    for i, nd in enumerate(fn.nodes):
-        if nd["k"] == "call" and nd.get("o") == "sexp_apply":
-            direct_apply.append(i)
-        if nd["k"] == "bin" and nd["o"] == "=":
-            rhs = fn.strip(nd["c"][1])
-            lhs = fn.strip(nd["c"][0])
-            if fn.nodes[rhs]["k"] == "call" and fn.nodes[rhs].get("o") == "sexp_apply_no_err_handler" \
-                    and fn.nodes[lhs]["k"] == "ref" and "d" in fn.nodes[lhs]:
-                fold_vars.add(fn.nodes[lhs]["d"])
+    # the fold may live in simplify() itself or in a helper of the same file; a helper that hands the fold
+    # result back makes its own result a fold result
+    sources = {"sexp_apply_no_err_handler"}
+    fold_vars = {}
+    changed = True
+    while changed:
+        changed = False
+        for fn in funcs:
+            fv = set()
+            for nd in fn.nodes:
+                if nd["k"] == "bin" and nd["o"] == "=":
+                    rhs, lhs = fn.strip(nd["c"][1]), fn.strip(nd["c"][0])
+                    if fn.nodes[rhs]["k"] == "call" and fn.nodes[rhs].get("o") in sources \
+                            and fn.nodes[lhs]["k"] == "ref" and "d" in fn.nodes[lhs]:
+                        fv.add(fn.nodes[lhs]["d"])
+            fold_vars[fn.name] = fv
+            if fn.name not in sources and fn.name != "simplify":
+                for nd in fn.nodes:
+                    if nd["k"] == "ret" and nd.get("c") and (fn.refs_in(nd["c"][0]) & fv):
+                        sources.add(fn.name)
+                        changed = True
+                        break
     stat.sites += 1
     stat.obligations += 1
-    if direct_apply:
-        res.add(Finding("C09", "C09.b.fold-through-apply", "simplify", "sexp_apply", fn.where(direct_apply[0]),
-                        "simplify calls sexp_apply directly: a fold that raises would run the program's exception handler at "
-                        "compile time", unit="simplify.c"))
-        return stat
-    elif not fold_vars:
+    for fn in funcs:
+        for i, nd in enumerate(fn.nodes):
+            if nd["k"] == "call" and nd.get("o") == "sexp_apply":
+                res.add(Finding("C09", "C09.b.fold-through-apply", fn.name, "sexp_apply", fn.where(i),
+                                "%s calls sexp_apply directly: a fold that raises would run the program's exception handler at "
+                                "compile time" % fn.name, unit="simplify.c"))
+                return stat
+    if not any(fold_vars.values()):
         raise AnalysisBroken("anchor vanished: simplify no longer folds through sexp_apply_no_err_handler")
-    else:
-        stat.discharged += 1
-    ka = KindAnalysis(model, fn, {v: model.U for v in fold_vars})
-    ka.sticky = set(fold_vars)
-    lits = []
-    for i, nd in enumerate(fn.nodes):
-        if nd["k"] == "call" and nd.get("o") == "sexp_make_lit":
-            for a in nd["c"][1:]:
-                a0 = fn.strip(a)
-                if fn.nodes[a0]["k"] == "ref" and fn.nodes[a0].get("d") in fold_vars:
-                    ka.probes[i] = a0
-                    lits.append(i)
-    if not lits:
+    stat.discharged += 1
+    nlits = 0
+    for fn in funcs:
+        fv = fold_vars.get(fn.name)
+        if not fv:
+            continue
+        ka = KindAnalysis(model, fn, {v: model.U for v in fv})
+        ka.sticky = set(fv)
+        lits = []
+        for i, nd in enumerate(fn.nodes):
+            if nd["k"] == "call" and nd.get("o") == "sexp_make_lit":
+                for a in nd["c"][1:]:
+                    a0 = fn.strip(a)
+                    if fn.nodes[a0]["k"] == "ref" and fn.nodes[a0].get("d") in fv:
+                        ka.probes[i] = a0
+                        lits.append(i)
+        if not lits:
+            continue
+        nlits += len(lits)
+        ka.run()
+        for i in lits:
+            stat.sites += 1
+            stat.obligations += 1
+            ks = ka.probe_results.get(i)
+            if ks is not None and exc not in ks:
+                stat.discharged += 1
+                stat.sample({"site": fn.where(i), "literal_from": fn.txt(ka.probes[i]), "kinds_there": model.describe(ks)[:80],
+                             "verdict": "exception excluded on every path"})
+            else:
+                res.add(Finding("C09", "C09.b.fold-without-check", fn.name, "sexp_make_lit(%s)" % fn.txt(ka.probes[i]),
+                                fn.where(i), "the folded application is replaced by a literal built from `%s` on a path where it may "
+                                "still be an exception object: a program that would raise at run time (e.g. (/ 1 0)) instead "
+                                "evaluates to the exception as a constant" % fn.txt(ka.probes[i]), unit="simplify.c"))
+    if not nlits:
         raise AnalysisBroken("anchor vanished: simplify builds no literal from the fold result")
-    ka.run()
-    for i in lits:
+    return stat
+
+
+def run_b2(prog, res, floor=1):
+    """the handler-free application the fold relies on really is handler-free: every place sexp_apply_no_err_handler
+    saves (the thread parameters, the global handler cell) is overwritten with a constant before sexp_apply runs"""
+    from cfg import block_reach
+    stat = res.stat("C09.b2", "sexp_apply_no_err_handler clears every handler source it saves before it applies", floor=floor)
+    fn = prog.func("sexp_apply_no_err_handler")
+    if fn is None:
+        raise AnalysisBroken("anchor vanished: sexp_apply_no_err_handler")
+    pos = elem_positions(fn)
+    calls = [i for i, nd in enumerate(fn.nodes) if nd["k"] == "call" and nd.get("o") == "sexp_apply"]
+    if not calls:
+        raise AnalysisBroken("anchor vanished: sexp_apply_no_err_handler no longer calls sexp_apply")
+    cpos = enclosing_elem(fn, calls[0], pos)
+    # saves: local = <memory lvalue>, where the same lvalue is stored from that local after the call (the restore)
+    saves = []
+    for i, nd in enumerate(fn.nodes):
+        if nd["k"] == "bin" and nd["o"] == "=":
+            l, r = fn.strip(nd["c"][0]), fn.strip(nd["c"][1])
+            if fn.nodes[l]["k"] == "ref" and "d" in fn.nodes[l]:
+                # the saved lvalue may sit in the arm of a conditional expression (p ? cdr(cell) : #f)
+                cands = [r] + ([fn.strip(c) for c in fn.nodes[r]["c"][1:]] if fn.nodes[r]["k"] == "cond" else [])
+                for m in cands:
+                    if fn.nodes[m]["k"] == "mem":
+                        saves.append((fn.nodes[l]["d"], fn.txt(m), i))
+    def before(p):
+        return p is not None and (p[0] == cpos[0] and p[1] < cpos[1] or (p[0] != cpos[0] and cpos[0] in block_reach(fn, p[0])
+                                                                         and p[0] not in block_reach(fn, cpos[0])))
+    for (vid, lv, at) in saves:
+        restored = cleared = False
+        for j, nd in enumerate(fn.nodes):
+            if nd["k"] != "bin" or nd["o"] != "=":
+                continue
+            l, r = fn.strip(nd["c"][0]), fn.strip(nd["c"][1])
+            if fn.txt(l) != lv:
+                continue
+            pj = enclosing_elem(fn, j, pos)
+            if fn.nodes[r]["k"] == "ref" and fn.nodes[r].get("d") == vid and not before(pj):
+                restored = True
+            if fn.const_val(r) is not None and before(pj):
+                cleared = True
+        if not restored:
+            continue        # not a save/restore pair
         stat.sites += 1
         stat.obligations += 1
-        ks = ka.probe_results.get(i)
-        if ks is not None and exc not in ks:
+        if cleared:
             stat.discharged += 1
-            stat.sample({"site": fn.where(i), "literal_from": fn.txt(ka.probes[i]), "kinds_there": model.describe(ks)[:80],
-                         "verdict": "exception excluded on every path"})
+            stat.sample({"saved": lv, "verdict": "overwritten with a constant before sexp_apply, restored afterwards"})
         else:
-            res.add(Finding("C09", "C09.b.fold-without-check", "simplify", "sexp_make_lit(%s)" % fn.txt(ka.probes[i]),
-                            fn.where(i), "the folded application is replaced by a literal built from `%s` on a path where it may "
-                            "still be an exception object: a program that would raise at run time (e.g. (/ 1 0)) instead "
-                            "evaluates to the exception as a constant" % fn.txt(ka.probes[i]), unit="simplify.c"))
+            res.add(Finding("C09", "C09.b2.handler-left-installed", fn.name, lv, fn.where(at),
+                            "sexp_apply_no_err_handler saves and restores %s but does not clear it before calling sexp_apply: "
+                            "the application (the simplifier's compile-time fold) runs under the program's exception handler, so "
+                            "a fold that raises invokes user code at compile time" % lv, unit=fn.unit.display))
     return stat
 
 
@@ -223,4 +298,81 @@ def run_d(prog, res, floor=6):
                                     unit="simplify.c"))
                 else:
                     stat.discharged += 1
+    return stat
+
+
+# ------------------------------------------------------------------ C09.e: a variable is (name, binder)
+def _single_def(fn, n):
+    """resolve a local that has exactly one definition to that definition's right-hand side"""
+    n = fn.strip(n)
+    nd = fn.nodes[n]
+    if nd["k"] != "ref" or "d" not in nd or nd["d"] in fn.params:
+        return n
+    ds = [r for (_d, r) in local_defs(fn, nd["d"])]
+    if len(ds) == 1 and ds[0] is not None:
+        return fn.strip(ds[0])
+    return n
+
+
+def _field_of(fn, n, path):
+    """n is <root>->value.<path...>: the root node, else None"""
+    n = fn.strip(n)
+    if fn.nodes[n]["k"] != "mem":
+        return None
+    root, p = fn.mempath(n)
+    return fn.strip(root) if p == ["value"] + path else None
+
+
+def run_e(prog, res, floor=2, units=("simplify.c", "vm.c", "eval.c")):
+    """A variable is a (name, binding lambda) pair.  Where the compiler asks whether a variable is assigned -
+    membership of a name in a lambda's set-variable list - the list must be the one of the lambda that binds
+    that name: for a reference R the sv list of R's own location, for a parameter taken from the parameter list
+    of L the sv list of L.  Asking another lambda lets the simplifier substitute (or the generator skip the box
+    of) a variable that is assigned."""
+    stat = res.stat("C09.e", "set-variable membership tests pair a name with the sv list of the lambda that binds it", floor=floor)
+    for fn in prog.all_funcs():
+        if fn.unit.name not in units or not fn.blocks:
+            continue
+        for i, nd in enumerate(fn.nodes):
+            if nd["k"] != "call" or nd.get("o") != "sexp_memq_op" or len(nd["c"]) < 6:
+                continue
+            name, lst = nd["c"][4], nd["c"][5]
+            sv = _single_def(fn, lst)
+            L = _field_of(fn, sv, ["lambda", "sv"])
+            if L is None:
+                continue
+            L = _single_def(fn, L)
+            nm = _single_def(fn, name)
+            want = None
+            R = _field_of(fn, nm, ["ref", "name"])
+            if R is not None:
+                # binder of a reference: ref.cell -> cdr  (sexp_ref_loc)
+                want = "%s->value.ref.cell->value.pair.cdr" % fn.txt(R)
+                how = "the reference %s" % fn.txt(R)
+            else:
+                P = _field_of(fn, nm, ["pair", "car"])
+                if P is not None and fn.nodes[P]["k"] == "ref" and "d" in fn.nodes[P] and fn.nodes[P]["d"] not in fn.params:
+                    srcs = set()
+                    for (_d, r) in local_defs(fn, fn.nodes[P]["d"]):
+                        if r is None:
+                            continue
+                        b = _field_of(fn, r, ["lambda", "params"])
+                        if b is not None:
+                            srcs.add(fn.txt(_single_def(fn, b)))
+                    if len(srcs) == 1:
+                        want = next(iter(srcs))
+                        how = "a parameter of %s" % want
+            if want is None:
+                continue        # a name whose binder this function does not see (handed in by the caller)
+            stat.sites += 1
+            stat.obligations += 1
+            have = fn.txt(L)
+            if have == want:
+                stat.discharged += 1
+                stat.sample({"site": fn.where(i), "function": fn.name, "name_of": how, "sv_of": have})
+            else:
+                res.add(Finding("C09", "C09.e.sv-of-another-lambda", fn.name, "sv of %s" % have[:40], fn.where(i),
+                                "%s asks whether %s is assigned by looking in the set-variable list of %s, not of the lambda "
+                                "that binds it (%s): an assigned variable of an outer lambda is taken for immutable and is "
+                                "replaced by a snapshot / left unboxed" % (fn.name, how, have, want), unit=fn.unit.display))
     return stat
